@@ -270,6 +270,13 @@ def float_bounds(ctx, vector, count):
             check(f"{backend}:planar.rho2", val(a2.rho2), X1 * X1 + Y1 * Y1, h2 * (X1 * X1 + Y1 * Y1), inp)
             check(f"{backend}:spatial.mag2", val(a3.mag2), X1 * X1 + Y1 * Y1 + Z1 * Z1, h3 * (X1 * X1 + Y1 * Y1 + Z1 * Z1), inp)
             check_root(f"{backend}:planar.rho", val(a2.rho), X1 * X1 + Y1 * Y1, h3, inp)
+            n += 5
+            check(f"{backend}:lorentz.tau2", val(a4.tau2), T1 * T1 - (X1 * X1 + Y1 * Y1 + Z1 * Z1), h4 * (T1 * T1 + X1 * X1 + Y1 * Y1 + Z1 * Z1), inp)
+            cr, ad = a3.cross(b3), a3 + b3
+            check(f"{backend}:spatial.cross.x", val(cr.x), Y1 * Z2 - Z1 * Y2, g2 * (abs(Y1 * Z2) + abs(Z1 * Y2)), inp)
+            check(f"{backend}:spatial.cross.y", val(cr.y), Z1 * X2 - X1 * Z2, g2 * (abs(Z1 * X2) + abs(X1 * Z2)), inp)
+            check(f"{backend}:spatial.cross.z", val(cr.z), X1 * Y2 - Y1 * X2, g2 * (abs(X1 * Y2) + abs(Y1 * X2)), inp)
+            check(f"{backend}:spatial.add.z", val(ad.z), Z1 + Z2, u * abs(Z1 + Z2), inp)
             check_root(f"{backend}:spatial.mag", val(a3.mag), X1 * X1 + Y1 * Y1 + Z1 * Z1, h4, inp)
     return n, worst
 
